@@ -609,6 +609,88 @@ void run_any_coder(int cid, const Calls &cs, mc::Ctx &ctx, const CoderOpts &o) {
   }
 }
 
+// --- (0) long structured bit strings: 0^a 1^b 0^c (and the complement) for a, b, c from a list of lengths around the
+// coders' block and renormalisation thresholds; every 97th bit optionally replaced by a 32-bit value call.
+const int kRunLens[14] = {0, 1, 7, 8, 9, 31, 32, 33, 255, 256, 257, 4095, 4096, 4097};
+template <class Enc, class Dec>
+void run_long_runs(int cid, uint64_t idx, mc::Ctx &ctx, std::string *desc) {
+  const int a = kRunLens[idx % 14], b = kRunLens[(idx / 14) % 14], c = kRunLens[(idx / 196) % 14];
+  const bool invert = (idx / 2744) % 2, with_values = (idx / 5488) % 2;
+  if (desc) {
+    *desc = std::string(kCoderName[cid]) + " bit coder: " + (invert ? "1" : "0") + "^" + std::to_string(a) + " " + (invert ? "0" : "1") + "^" + std::to_string(b) + " " +
+            (invert ? "1" : "0") + "^" + std::to_string(c) + (with_values ? " with a 32-bit value call after every 97th bit" : "");
+    return;
+  }
+  std::vector<uint8_t> bits;
+  bits.insert(bits.end(), a, invert ? 1 : 0);
+  bits.insert(bits.end(), b, invert ? 0 : 1);
+  bits.insert(bits.end(), c, invert ? 1 : 0);
+  Enc enc;
+  enc.StartEncoding();
+  for (size_t i = 0; i < bits.size(); ++i) {
+    enc.EncodeBit(bits[i] != 0);
+    if (with_values && i % 97 == 96) enc.EncodeLeastSignificantBits32(cid == SYMBOL ? 20 : 32, (uint32_t)(i * 2654435761u) & (cid == SYMBOL ? 0xFFFFFu : 0xFFFFFFFFu));
+  }
+  EncoderBuffer eb;
+  enc.EndEncoding(&eb);
+  eb.Encode(kSentinel32);
+  DecoderBuffer db;
+  db.Init(eb.data(), eb.size());
+  db.set_bitstream_version(DRACO_BITSTREAM_VERSION(2, 2));
+  Dec dec;
+  const std::string sig = std::string("bitcoder:") + kCoderName[cid] + ":long-runs:";
+  if (!dec.StartDecoding(&db)) {
+    ctx.fail(sig + "start-decoding-false", "");
+    return;
+  }
+  for (size_t i = 0; i < bits.size(); ++i) {
+    const bool got = dec.DecodeNextBit();
+    if (got != (bits[i] != 0)) {
+      ctx.fail(sig + "bit-mismatch", "at bit " + std::to_string(i));
+      return;
+    }
+    if (with_values && i % 97 == 96) {
+      uint32_t v = 0;
+      dec.DecodeLeastSignificantBits32(cid == SYMBOL ? 20 : 32, &v);
+      const uint32_t want = (uint32_t)(i * 2654435761u) & (cid == SYMBOL ? 0xFFFFFu : 0xFFFFFFFFu);
+      if (v != want) {
+        ctx.fail(sig + "value-mismatch", "after bit " + std::to_string(i));
+        return;
+      }
+    }
+  }
+  dec.EndDecoding();
+  uint32_t s32 = 0;
+  if (!db.Decode(&s32) || s32 != kSentinel32 || db.remaining_size() != 0) ctx.fail(sig + "not-self-delimiting", "");
+  ctx.count(std::string("long_run_strings:") + kCoderName[cid]);
+  ctx.state(mc::hash_bytes(eb.data(), eb.size()));
+}
+void add_long_runs_space(mc::Runner &R, int cid) {
+  mc::Space sp;
+  sp.name = std::string("bits_") + kCoderName[cid] + "_long_runs";
+  sp.size = 2744 * 4;
+  auto call = [cid](uint64_t idx, mc::Ctx &ctx, std::string *d) {
+    switch (cid) {
+      case RANS: run_long_runs<RAnsBitEncoder, RAnsBitDecoder>(cid, idx, ctx, d); break;
+      case ADAPT: run_long_runs<AdaptiveRAnsBitEncoder, AdaptiveRAnsBitDecoder>(cid, idx, ctx, d); break;
+      case DIRECT: run_long_runs<DirectBitEncoder, DirectBitDecoder>(cid, idx, ctx, d); break;
+      case FOLDED: run_long_runs<FoldedBit32Encoder<RAnsBitEncoder>, FoldedBit32Decoder<RAnsBitDecoder>>(cid, idx, ctx, d); break;
+      case SYMBOL: run_long_runs<SymbolBitEncoder, SymbolBitDecoder>(cid, idx, ctx, d); break;
+    }
+  };
+  sp.run = [call](uint64_t idx, mc::Ctx &ctx) {
+    call(idx, ctx, nullptr);
+    ctx.nontrivial_unique();
+  };
+  sp.describe = [call](uint64_t idx) {
+    std::string d;
+    mc::Ctx dummy;
+    call(idx, dummy, &d);
+    return d;
+  };
+  R.add(sp);
+}
+
 // --- (1) every bit string of length lo..hi fed bit-wise.
 // index = (2^L - 2^lo) + s for the string s of length L (bit 0 of s first).
 void bits_from_index(uint64_t idx, int lo, Calls *cs) {
@@ -1323,6 +1405,7 @@ int main(int argc, char **argv) {
     R.add(sp);
   }
   for (int cid = 0; cid < kNumCoders; ++cid) {
+    add_long_runs_space(R, cid);
     add_bits_space(R, cid, 0, 16, true, true);
     add_bits_space(R, cid, 17, 20, false, true);
   }
